@@ -1104,72 +1104,76 @@ impl Intern {
     }
 }
 
-fn coq_rr(it: &mut Intern, w: &World, extra: &HashMap<Vec<u8>, SigProv>, r: &Record) -> String {
-    let owner = coq_name(&mname(&r.name));
-    let t = u16::from(r.record_type());
+fn tok_name(t: &mut Vec<u32>, n: &MName) {
+    t.push(n.len() as u32);
+    for l in n {
+        t.push(label_id(l) as u32);
+    }
+}
+
+fn tok_rr(t: &mut Vec<u32>, it: &mut Intern, w: &World, extra: &HashMap<Vec<u8>, SigProv>, r: &Record) {
+    tok_name(t, &mname(&r.name));
+    let ty = u16::from(r.record_type());
     let rb = rdata_bytes(&r.data);
-    let rid = it.rid(t, &rb);
-    let body = match &r.data {
+    let rid = it.rid(ty, &rb);
+    t.push(rid as u32);
+    match &r.data {
         RData::DNSSEC(DNSSECRData::DNSKEY(k)) => {
             let alg = u8::from(k.algorithm());
             let pk = it.pk(alg, k.public_key().public_bytes());
-            format!(
-                "BKey {} {} {} {} {} {}",
-                rid,
-                pk,
-                alg,
-                key_tag(&rb),
-                k.flags() & 0x0100 != 0,
-                k.flags() & 0x0080 != 0
-            )
+            t.extend([1, rid as u32, pk as u32, alg as u32, key_tag(&rb) as u32]);
+            t.push((k.flags() & 0x0100 != 0) as u32);
+            t.push((k.flags() & 0x0080 != 0) as u32);
         }
         RData::DNSSEC(DNSSECRData::DS(d)) => {
             let dt = u8::from(d.digest_type());
-            let dg = match w.dig_prov.get(d.digest()) {
-                Some((n, kb, pdt)) if *pdt == dt => format!("(DGen {} {})", coq_name(n), it.rid(48, kb)),
-                _ => "DBad".to_string(),
-            };
-            format!("BDs {} {} {} {}", d.key_tag(), u8::from(d.algorithm()), dt, dg)
+            t.extend([2, d.key_tag() as u32, u8::from(d.algorithm()) as u32, dt as u32]);
+            match w.dig_prov.get(d.digest()) {
+                Some((n, kb, pdt)) if *pdt == dt => {
+                    t.push(1);
+                    tok_name(t, n);
+                    t.push(it.rid(48, kb) as u32);
+                }
+                _ => t.push(0),
+            }
         }
         RData::DNSSEC(DNSSECRData::RRSIG(s)) => {
             let i = s.input();
-            let sv = match w.sig_prov.get(s.sig()).or_else(|| extra.get(s.sig())) {
-                Some(p) => {
-                    let mut rids: Vec<u64> = p.rdatas.iter().map(|b| it.rid(p.tc, b)).collect();
-                    rids.sort();
-                    format!(
-                        "(SGen {} (mkTbs {} {} {} {} {} {} {} {} {} {}))",
-                        it.pk(p.key.0, &p.key.1),
-                        coq_name(&p.owner),
-                        p.tc,
-                        p.labels,
-                        p.ottl,
-                        p.alg,
-                        p.exp,
-                        p.inc,
-                        p.tag,
-                        coq_name(&p.signer),
-                        coq_list(rids.iter().map(|x| x.to_string()))
-                    )
-                }
-                None => "SBad".to_string(),
-            };
-            format!(
-                "BSig {} {} {} {} {} {} {} {} {}",
-                u16::from(i.type_covered),
-                u8::from(i.algorithm),
-                i.num_labels,
+            t.extend([
+                3,
+                u16::from(i.type_covered) as u32,
+                u8::from(i.algorithm) as u32,
+                i.num_labels as u32,
                 i.original_ttl,
                 i.sig_expiration.get(),
                 i.sig_inception.get(),
-                i.key_tag,
-                coq_name(&mname(&i.signer_name)),
-                sv
-            )
+                i.key_tag as u32,
+            ]);
+            tok_name(t, &mname(&i.signer_name));
+            match w.sig_prov.get(s.sig()).or_else(|| extra.get(s.sig())) {
+                Some(p) => {
+                    let mut rids: Vec<u64> = p.rdatas.iter().map(|b| it.rid(p.tc, b)).collect();
+                    rids.sort();
+                    t.push(1);
+                    t.push(it.pk(p.key.0, &p.key.1) as u32);
+                    tok_name(t, &p.owner);
+                    t.extend([p.tc as u32, p.labels as u32, p.ottl, p.alg as u32, p.exp, p.inc, p.tag as u32]);
+                    tok_name(t, &p.signer);
+                    t.push(rids.len() as u32);
+                    t.extend(rids.iter().map(|x| *x as u32));
+                }
+                None => t.push(0),
+            }
         }
-        _ => format!("BPlain {t}"),
-    };
-    format!("mkRR {owner} {rid} ({body})")
+        _ => t.extend([0, ty as u32]),
+    }
+}
+
+fn tok_rrs(t: &mut Vec<u32>, it: &mut Intern, w: &World, extra: &HashMap<Vec<u8>, SigProv>, v: &[Record]) {
+    t.push(v.len() as u32);
+    for r in v {
+        tok_rr(t, it, w, extra, r);
+    }
 }
 
 /// verdicts of the real verify_nsec / verify_nsec3 for every subset of NSEC(3) owner names
@@ -1597,61 +1601,78 @@ fn case(seed: u64, index: u64) -> CaseOut {
     let oracle_fail = oracle(&w, &q, qtype, tampered, &gobs, &obs);
     let known = if oracle_fail.is_some() { known_class(&w, &log, &extra) } else { None };
 
-    // ---- Coq case ----
+    // ---- Coq case (stream of 32-bit numbers, see coq/C07/Check.v) ----
     let mut it = Intern::default();
-    let anchors: Vec<String> = w.anchors.iter().map(|(a, p)| it.pk(*a, p).to_string()).collect();
-    let mut tbl = vec![];
-    let mut ntbl = vec![];
-    for ((n, t), resp) in &log {
-        let reply = match resp.kind {
-            2 => "UErr".to_string(),
-            1 => format!(
-                "UNoRec {} {}",
-                resp.rcode,
-                coq_list(resp.authorities.iter().map(|x| coq_rr(&mut it, &w, &extra, x)))
-            ),
-            _ => format!(
-                "UOk (mkResp {} {} {})",
-                resp.rcode,
-                coq_list(resp.answers.iter().map(|x| coq_rr(&mut it, &w, &extra, x))),
-                coq_list(resp.authorities.iter().map(|x| coq_rr(&mut it, &w, &extra, x)))
-            ),
-        };
-        tbl.push(format!("(({}, {}), {})", coq_name(n), t, reply));
+    let mut t: Vec<u32> = vec![];
+    t.push(w.anchors.len() as u32);
+    for (a, p) in &w.anchors {
+        t.push(it.pk(*a, p) as u32);
+    }
+    t.push(NOW);
+    tok_name(&mut t, &q);
+    t.push(qtype as u32);
+    t.push(log.len() as u32);
+    let mut ntbl: Vec<((MName, u16), bool, Vec<usize>, u8)> = vec![];
+    for ((n, ty), resp) in &log {
+        tok_name(&mut t, n);
+        t.push(*ty as u32);
+        match resp.kind {
+            2 => t.push(2),
+            1 => {
+                t.extend([1, resp.rcode as u32]);
+                tok_rrs(&mut t, &mut it, &w, &extra, &resp.authorities);
+            }
+            _ => {
+                t.extend([0, resp.rcode as u32]);
+                tok_rrs(&mut t, &mut it, &w, &extra, &resp.answers);
+                tok_rrs(&mut t, &mut it, &w, &extra, &resp.authorities);
+            }
+        }
         if resp.kind != 2 {
             let eff = if resp.kind == 1 { Resp { answers: vec![], ..resp.clone() } } else { resp.clone() };
-            for (n3, pos, p) in nsec_table(n, *t, &eff) {
-                ntbl.push(format!(
-                    "(({}, {}), {}, {}, {})",
-                    coq_name(n),
-                    t,
-                    n3,
-                    coq_list(pos.iter().map(|x| format!("{x}%nat"))),
-                    p
-                ));
+            for (n3, pos, p) in nsec_table(n, *ty, &eff) {
+                ntbl.push(((n.clone(), *ty), n3, pos, p));
             }
         }
     }
+    t.push(ntbl.len() as u32);
+    for ((n, ty), n3, pos, p) in &ntbl {
+        tok_name(&mut t, n);
+        t.push(*ty as u32);
+        t.push(*n3 as u32);
+        t.push(pos.len() as u32);
+        t.extend(pos.iter().map(|x| *x as u32));
+        t.push(*p as u32);
+    }
     let plist = |v: &[Record]| coq_list(v.iter().map(|x| pcode(x.proof).to_string()));
-    let (obs_coq, obs_text) = match &obs {
-        Obs::Ok(rc, a, u) => (format!("OOk {} {} {}", rc, plist(a), plist(u)), format!("Ok rc={} ans={} auth={}", rc, plist(a), plist(u))),
-        Obs::Nsec(p, rc, a, u) => (
-            format!("ONsec {} {} {} {}", p, rc, plist(a), plist(u)),
-            format!("NsecErr proof={} rc={} ans={} auth={}", p, rc, plist(a), plist(u)),
-        ),
-        Obs::Err => ("OErr".to_string(), "Err".to_string()),
-        Obs::Panic(m) => ("OPanic".to_string(), format!("PANIC {m}")),
+    let tok_proofs = |t: &mut Vec<u32>, v: &[Record]| {
+        t.push(v.len() as u32);
+        t.extend(v.iter().map(|x| pcode(x.proof) as u32));
     };
-    let coq = format!(
-        "Case {} {} ({}, {}) {} {} ({})",
-        coq_list(anchors),
-        NOW,
-        coq_name(&q),
-        qtype,
-        coq_list(tbl),
-        coq_list(ntbl),
-        obs_coq
-    );
+    let obs_text = match &obs {
+        Obs::Ok(rc, a, u) => {
+            t.extend([0, *rc as u32]);
+            tok_proofs(&mut t, a);
+            tok_proofs(&mut t, u);
+            format!("Ok rc={} ans={} auth={}", rc, plist(a), plist(u))
+        }
+        Obs::Nsec(p, rc, a, u) => {
+            t.extend([1, *p as u32, *rc as u32]);
+            tok_proofs(&mut t, a);
+            tok_proofs(&mut t, u);
+            format!("NsecErr proof={} rc={} ans={} auth={}", p, rc, plist(a), plist(u))
+        }
+        Obs::Err => {
+            t.push(2);
+            "Err".to_string()
+        }
+        Obs::Panic(m) => {
+            t.push(3);
+            format!("PANIC {m}")
+        }
+    };
+    let bytes: Vec<u8> = t.iter().flat_map(|x| x.to_be_bytes()).collect();
+    let coq = format!("CaseP {}", coq_pb(&bytes));
     let ftext = faults
         .iter()
         .map(|f| format!("{}/{}:{}", show(&f.q), f.qtype, edit_text(&f.edit)))
